@@ -10,7 +10,8 @@ use super::query_language::query_parser::{
 use super::query_language::{parameter::Parameters, query_parser::QueryParser};
 use super::query_language::{FieldType, FieldValue, ParamValue};
 use super::system_entities::{
-    ID_FIELD, PEER_FIELD, ROOM_FIELD, ROOM_ID_FIELD, VERIFYING_KEY_FIELD,
+    BINARY_FIELD, ID_FIELD, PEER_FIELD, ROOM_FIELD, ROOM_ID_FIELD, SIGNATURE_FIELD,
+    VERIFYING_KEY_FIELD,
 };
 use super::Error;
 use super::Result;
@@ -434,6 +435,14 @@ fn js_field(field: &str) -> String {
     format!("_json->'$.{}'", field)
 }
 
+/// system columns stored as BLOB
+fn is_binary_system_field(name: &str) -> bool {
+    matches!(
+        name,
+        ID_FIELD | ROOM_ID_FIELD | VERIFYING_KEY_FIELD | SIGNATURE_FIELD | BINARY_FIELD
+    )
+}
+
 /// the field as an SQL value (number, text, NULL for a JSON null)
 fn js_value(field: &str) -> String {
     format!("_json->>'$.{}'", field)
@@ -604,7 +613,12 @@ fn get_fields(
                         } else {
                             js_value(f)
                         };
-                        format!("'{}', max({}) ", &field.name(), agg_field)
+                        if field.field.is_system && is_binary_system_field(&field.field.name) {
+                            //json_object cannot hold a BLOB: a binary system field is returned as its base64 text
+                            format!("'{}', base64_encode(max({})) ", &field.name(), agg_field)
+                        } else {
+                            format!("'{}', max({}) ", &field.name(), agg_field)
+                        }
                     }
                     Function::Min(f) => {
                         let agg_field = if field.field.is_system {
@@ -612,7 +626,11 @@ fn get_fields(
                         } else {
                             js_value(f)
                         };
-                        format!("'{}', min({}) ", &field.name(), agg_field)
+                        if field.field.is_system && is_binary_system_field(&field.field.name) {
+                            format!("'{}', base64_encode(min({})) ", &field.name(), agg_field)
+                        } else {
+                            format!("'{}', min({}) ", &field.name(), agg_field)
+                        }
                     }
                     Function::Sum(f) => {
                         let agg_field = if field.field.is_system {
